@@ -36,6 +36,8 @@ type c16Case struct {
 	// relay host|both (also fed to the renter's node at once), poke yes|no (the
 	// first block carries a bystander transaction that changes the accumulator)
 	Mid string `json:"mid,omitempty"`
+	// NoDeadline: the caller's context has no deadline (context.Background())
+	NoDeadline bool `json:"no_deadline,omitempty"`
 }
 
 func (c c16Case) sig() string {
@@ -48,6 +50,9 @@ func (c c16Case) sig() string {
 	}
 	if c.Mid != "" {
 		f += "/mid-" + c.Mid
+	}
+	if c.NoDeadline {
+		f += "/ctx-without-deadline"
 	}
 	return fmt.Sprintf("%s/%s/%s/%s/%s", c.RPC, c.Phase, f, c.Basis, c.Inputs)
 }
@@ -83,11 +88,11 @@ func (c c16Case) cause() string {
 	if c.Fault.Op == "dial-fail" {
 		return "dial-fail"
 	}
-	if c.Contract != "" {
-		return "contract-" + c.Contract
-	}
 	if c.Mid != "" {
 		return "block-mid-rpc"
+	}
+	if c.Contract != "" {
+		return "contract-" + c.Contract
 	}
 	if strings.HasPrefix(c.Fault.Op, "inject:") || strings.HasPrefix(c.Fault.Op, "signer:") {
 		return c.faultPoint()
@@ -246,6 +251,13 @@ func (x *c16Lab) contractInState(state string) (rhp.ContractRevision, error) {
 			}
 		}
 		return res.Contract, l.Barrier()
+	case "just-confirmed":
+		// confirmed in the LATEST block: every further block changes its proof
+		cs, err := l.FormConfirmed(1, types.Siacoins(100), types.Siacoins(200), 400)
+		if err != nil {
+			return rhp.ContractRevision{}, err
+		}
+		return cs[0], nil
 	case "unknown":
 		c, err := x.pool.take()
 		if err != nil {
@@ -551,9 +563,15 @@ func (x *c16Lab) attempt(cse c16Case, noCleanup bool) (succeeded bool) {
 	} else {
 		x.midHook = nil
 	}
+	hostFinalErr := false
 	ap.extraFun = func(m *rhpmitm.Msg) {
 		if x.midHook != nil {
 			x.midHook(m)
+		}
+		if m.Dir == rhpmitm.HostToRenter && m.Index == 1 && !m.Synthetic && m.Err != nil && cse.Fault.Op != "rpcerror" {
+			ap.mu.Lock()
+			hostFinalErr = true
+			ap.mu.Unlock()
 		}
 		if m.Dir != rhpmitm.RenterToHost {
 			return
@@ -608,12 +626,36 @@ func (x *c16Lab) attempt(cse c16Case, noCleanup bool) (succeeded bool) {
 	if cse.Fault.Op == "silent" {
 		deadline = silentDeadline // the peer never answers: the call ends at its context deadline
 	}
-	out := monitoredCall(deadline, call)
+	var out outcome
+	dialsBefore, _ := l.T.Dials()
+	if cse.NoDeadline {
+		// the caller gives no deadline: the client has to arm one on the stream
+		// itself. The lab compresses whatever it arms to 500 ms; a call that is
+		// still blocked after 15 s is unblocked by killing its stream.
+		l.T.SetDeadlineCap(500 * time.Millisecond)
+		out = monitoredCallCtx(15*time.Second, true, l.T.KillLastStream, call)
+		l.T.SetDeadlineCap(0)
+	} else {
+		out = monitoredCall(deadline, call)
+	}
 	l.T.SetHook(nil)
 	l.T.FailNextDials(0)
 	l.Signer.FeeOverride = nil
 	r.Eval()
 	r.Count("attempts:"+x.rpc, 1)
+	if cse.NoDeadline {
+		r.Count("calls_with_deadline_less_context", 1)
+		if dialsAfter, _ := l.T.Dials(); dialsAfter > dialsBefore {
+			if !l.T.DeadlineArmed() {
+				viol("no-deadline-armed-on-stream", "the caller's context has no deadline and the client armed none on the stream: against a silent host the call blocks for ever with the renter's outputs reserved", map[string]any{"returned_only_after_the_lab_killed_the_stream": out.Unblocked})
+			} else {
+				r.Count("default_stream_deadline_armed", 1)
+				if out.Unblocked {
+					viol("hang", "a deadline was armed on the stream but the call did not return when it expired", out.Duration.String())
+				}
+			}
+		}
+	}
 	if out.Hung {
 		viol("hang", "client call did not return within its context deadline plus slack", out.Duration.String())
 		x.dead = true
@@ -730,6 +772,11 @@ func (x *c16Lab) attempt(cse c16Case, noCleanup bool) (succeeded bool) {
 		}
 	case committed != nil:
 		r.Count("host_committed_but_renter_saw_failure", 1)
+		if hostFinalErr && injMethod == "" {
+			// nobody made an interface call fail, yet the handler recorded the
+			// contract and then FAILED: "fails => no contract recorded" is broken
+			viol("host-failed-after-recording-contract", "the host's handler recorded the contract (and pooled the transaction) and then ended with an error: the exchange failed but left a contract behind", map[string]any{"contract": committed.ID, "renter_error": fmt.Sprint(out.Err)})
+		}
 		if !sawR1 {
 			viol("host-commit-without-renter-signatures", "the host recorded a contract although the renter never sent its signatures", committed.ID)
 		}
@@ -758,6 +805,9 @@ func (x *c16Lab) attempt(cse c16Case, noCleanup bool) (succeeded bool) {
 			// residues when the step after pooling fails)
 			r.Count("pool_residue_after_uncommitted_failure", 1)
 			residue = true
+			if injMethod == "" {
+				viol("pooled-transaction-left-after-failure", "the attempt failed without the host recording a contract, but its transaction sits in the host's pool (nobody made an interface call fail)", map[string]any{"pooled_contracts": pooledContractIDs(l.HostNode, existing, cse.Contract == "unconfirmed")})
+			}
 		}
 		hostPre, rentPre = hostWant, rentWant
 		if nMid > 0 {
@@ -1255,7 +1305,7 @@ func (x *c16Lab) releaseAll() {
 }
 
 func runC16(r *mon.Run, replay string) {
-	r.Rule("fault table = RPC {form, renew, refresh-full, refresh-partial} x abort point {clean, stream cannot be opened, cut before/after the request, cut before/after the host inputs, injected RPCError, cut before/after the renter signatures, cut before/after / truncated final response, silent host, renter signatures swallowed} x basis relation {same tip, renter 1..3 blocks behind, renter on a stale fork of depth 1..3 unknown to / known by the host} x renter inputs {confirmed, one unconfirmed output with its parent}; plus every field of every message in both directions (reflection walk) x operator {flip low/high bit, zero, max, +1, -1, truncate, extend, duplicate, swap neighbours, nil pointer, other resolution type} at the same tip; plus renew/refresh of a contract that is still unconfirmed / unknown to the host / already renewed / expired; plus interface-failure injection: the k-th call of every error-returning method the client and the handlers invoke on the interfaces they were given (host chain manager V2TransactionSet/AddV2PoolTransactions/UpdateV2TransactionSet, contractor LockV2Contract/V2FileContractElement/AddV2Contract/RenewV2Contract, host wallet FundV2Transaction/BroadcastV2TransactionSet, the wallet's syncer, renter pool V2TransactionSet, renter wallet FundV2Transaction) fails, method x occurrence enumerated from a clean attempt of the same shape (confirmed/unconfirmed inputs x same tip/renter one block behind), each followed by a clean attempt, plus a signer that recommends a zero fee; plus a chain that moves DURING the exchange: before each message is forwarded (R0, H0, R1, H1) or inside the renter's signer callback, 1..3 blocks are mined on the host's node (fed to the renter's node at once or only afterwards), the first one optionally carrying a bystander transaction, and the success oracle is evaluated by an INDEPENDENT third node: its untouched pool must accept the returned (basis, set) pair at the current tip and its block must create exactly the returned contract; plus two formations in a row with two INDEPENDENT hosts (separate chain managers and pools) funded from 1, 2 or 3 unconfirmed outputs or confirmed ones, in both orders, the first returned set withheld from every pool: all formations that report success must have pairwise-disjoint inputs, be accepted one after the other by one fresh pool and be mined into exactly the returned contracts; plus, after every failed attempt, a re-funding probe (the amount each wallet could fund before - the renter also from unconfirmed outputs - must be fundable again at once); plus storms of 20 consecutive aborts at one abort point followed by a clean attempt; thorough adds every abort point at every basis relation, the field table for the message shapes with an unconfirmed renter parent, and PRNG double corruptions. Two chain managers (host, renter) are kept in sync by the lab except where the basis relation says otherwise. Enumerated completely; a case is non-trivial when it is a clean/abort case or its corruption changed the wire bytes.")
+	r.Rule("fault table = RPC {form, renew, refresh-full, refresh-partial} x abort point {clean, stream cannot be opened, cut before/after the request, cut before/after the host inputs, injected RPCError, cut before/after the renter signatures, cut before/after / truncated final response, silent host, renter signatures swallowed} x basis relation {same tip, renter 1..3 blocks behind, renter on a stale fork of depth 1..3 unknown to / known by the host} x renter inputs {confirmed, one unconfirmed output with its parent}; plus every field of every message in both directions (reflection walk) x operator {flip low/high bit, zero, max, +1, -1, truncate, extend, duplicate, swap neighbours, nil pointer, other resolution type} at the same tip; plus renew/refresh of a contract that is still unconfirmed / unknown to the host / already renewed / expired; plus interface-failure injection: the k-th call of every error-returning method the client and the handlers invoke on the interfaces they were given (host chain manager V2TransactionSet/AddV2PoolTransactions/UpdateV2TransactionSet, contractor LockV2Contract/V2FileContractElement/AddV2Contract/RenewV2Contract, host wallet FundV2Transaction/BroadcastV2TransactionSet, the wallet's syncer, renter pool V2TransactionSet, renter wallet FundV2Transaction) fails, method x occurrence enumerated from a clean attempt of the same shape (confirmed/unconfirmed inputs x same tip/renter one block behind), each followed by a clean attempt, plus a signer that recommends a zero fee; plus a chain that moves DURING the exchange: before each message is forwarded (R0, H0, R1, H1) or inside the renter's signer callback, 1..3 blocks are mined on the host's node (fed to the renter's node at once or only afterwards), the first one optionally carrying a bystander transaction, and the success oracle is evaluated by an INDEPENDENT third node: its untouched pool must accept the returned (basis, set) pair at the current tip and its block must create exactly the returned contract; plus two formations in a row with two INDEPENDENT hosts (separate chain managers and pools) funded from 1, 2 or 3 unconfirmed outputs or confirmed ones, in both orders, the first returned set withheld from every pool: all formations that report success must have pairwise-disjoint inputs, be accepted one after the other by one fresh pool and be mined into exactly the returned contracts; plus, after every failed attempt, a re-funding probe (the amount each wallet could fund before - the renter also from unconfirmed outputs - must be fundable again at once); plus mid-RPC moves for renew / refresh of a contract confirmed in the LATEST block (and 6-block moves for older ones), with the failure side demanding that a handler that recorded the contract does not then fail and that nothing of a failed attempt stays pooled (unless the lab made an interface call fail); plus callers whose context has NO deadline against a host that goes silent at each message boundary: the client must have armed a deadline on the stream (observed at the transport, compressed to 500 ms), return an error and leave everything fundable again; plus storms of 20 consecutive aborts at one abort point followed by a clean attempt; thorough adds every abort point at every basis relation, the field table for the message shapes with an unconfirmed renter parent, and PRNG double corruptions. Two chain managers (host, renter) are kept in sync by the lab except where the basis relation says otherwise. Enumerated completely; a case is non-trivial when it is a clean/abort case or its corruption changed the wire bytes.")
 	r.Assume("core consensus and rhp/v4 cost functions are trusted; the in-repo EphemeralContractor/WalletStore are the host's and wallets' stores")
 	r.Assume("a failure seen by the renter after its signatures reached the host may legitimately coincide with a host-side commit (the final response cannot be made atomic); it is then checked as a host-side success")
 	r.Extra("exhaustive", true)
@@ -1286,7 +1336,7 @@ func runC16(r *mon.Run, replay string) {
 	}
 	var jobs []job
 	for _, rpc := range rpcs {
-		for _, part := range []string{"abort-same", "abort-basis-a", "abort-basis-b", "corrupt-R0", "corrupt-R1", "corrupt-H0", "corrupt-H1a", "corrupt-H1b", "corrupt-R0u", "corrupt-H1u", "corrupt-double", "storm", "inject", "contract-state", "mid-rpc-host", "mid-rpc-both", "two-hosts"} {
+		for _, part := range []string{"abort-same", "abort-basis-a", "abort-basis-b", "corrupt-R0", "corrupt-R1", "corrupt-H0", "corrupt-H1a", "corrupt-H1b", "corrupt-R0u", "corrupt-H1u", "corrupt-double", "storm", "inject", "contract-state", "mid-rpc-host", "mid-rpc-both", "two-hosts", "no-deadline"} {
 			if only != nil && only.RPC != rpc {
 				continue
 			}
@@ -1369,6 +1419,14 @@ func runC16(r *mon.Run, replay string) {
 				x.attempt(c16Case{RPC: j.rpc, Fault: a, Fault2: &b, Basis: "same", Inputs: "confirmed", Phase: "corrupt"}, false)
 				r.Count("double_corruptions", 1)
 			}
+		case "no-deadline":
+			// the caller's context has no deadline and the host goes silent at a
+			// message boundary without closing the stream
+			for _, inputs := range []string{"confirmed", "unconfirmed"} {
+				for _, p := range []mutation{{Dir: "H", Msg: 0, Op: "silent"}, {Dir: "R", Msg: 1, Op: "silent"}, {Dir: "H", Msg: 1, Op: "silent"}, {Op: "none"}} {
+					x.attempt(c16Case{RPC: j.rpc, Fault: p, Basis: "same", Inputs: inputs, Phase: "no-deadline", NoDeadline: true}, false)
+				}
+			}
 		case "two-hosts":
 			reps := r.Pick(2, 6)
 			for rep := 0; rep < reps; rep++ {
@@ -1391,6 +1449,22 @@ func runC16(r *mon.Run, replay string) {
 							mid := fmt.Sprintf("%s:%d:%s:%s", point, depth, relay, poke)
 							x.attempt(c16Case{RPC: j.rpc, Fault: mutation{Op: "none"}, Basis: "same", Inputs: inputs, Phase: "mid-rpc", Mid: mid}, false)
 						}
+					}
+				}
+			}
+			if j.rpc != "form" {
+				// the contract to renew / refresh was confirmed in the latest block
+				// (one more block changes its proof), and older contracts with a
+				// deep move (6 blocks) - at every step, in particular between the
+				// host's funding and its final broadcast
+				for _, point := range []string{"R0", "H0", "sign", "R1", "H1"} {
+					for _, depth := range []int{1, 2, 6} {
+						mid := fmt.Sprintf("%s:%d:%s:poke", point, depth, relay)
+						x.attempt(c16Case{RPC: j.rpc, Fault: mutation{Op: "none"}, Basis: "same", Inputs: "confirmed", Phase: "mid-rpc", Mid: mid, Contract: "just-confirmed"}, false)
+						if depth == 6 {
+							x.attempt(c16Case{RPC: j.rpc, Fault: mutation{Op: "none"}, Basis: "same", Inputs: "confirmed", Phase: "mid-rpc", Mid: mid}, false)
+						}
+						r.Count("mid_rpc_moves_on_just_confirmed_contracts", 1)
 					}
 				}
 			}
@@ -1469,6 +1543,9 @@ func runC16(r *mon.Run, replay string) {
 		r.Floor("refunding_probes", 1500)
 		r.Floor("refunding_probes_with_unconfirmed_outputs", 150)
 		r.Floor("two_host_cases", 12)
+		r.Floor("calls_with_deadline_less_context", 24)
+		r.Floor("default_stream_deadline_armed", 24)
+		r.Floor("mid_rpc_moves_on_just_confirmed_contracts", 60)
 		r.Floor("two_host_both_succeeded", 4)
 		r.Floor("blocks_mined_mid_rpc", 400)
 		r.Floor("sets_accepted_by_independent_pool", 150)
